@@ -1,6 +1,6 @@
 (* Model of the formatter: /repo/ast/ast.go PrettyPrint for every node and PrintState
    (IndentLevel, ExpressionPrecedence, IndentationDone, Compact, AllParens, prev, last).
-   Faithful to the code after the `fix:` commits 92d179c 38a934c 8755f15 2cf3376 8e90cc8 36f4a46.
+   Faithful to the code after the `fix:` commits 92d179c 38a934c 8755f15 2cf3376 8e90cc8 36f4a46 652aece 2370f0f.
    A nil child that Go would dereference is the outcome None (Go panic).  No proofs here. *)
 From Coq Require Import List ZArith NArith Bool String Ascii.
 From GrolGen Require Import Gen_Consts Gen_Prec.
@@ -23,18 +23,20 @@ Record pst : Type := mkPst {
   p_compact : bool;
   p_allparens : bool;
   p_prev : option node;    (* prev: the previously printed statement (nil at start) *)
-  p_last : bytes           (* last string written through Print *)
+  p_last : bytes;          (* last string written through Print *)
+  p_sep : bool             (* sepIfOpen: compact mode, a separator is still needed if what comes next starts with ( or [ *)
 }.
 
 Definition new_pst (compact allparens : bool) : pst :=
-  mkPst [] 0 0 false compact allparens None [].
+  mkPst [] 0 0 false compact allparens None [] false.
 
-Definition with_out (ps : pst) (o : bytes) := mkPst o (p_indent ps) (p_prec ps) (p_idone ps) (p_compact ps) (p_allparens ps) (p_prev ps) (p_last ps).
-Definition with_indent (ps : pst) (i : Z) := mkPst (p_out ps) i (p_prec ps) (p_idone ps) (p_compact ps) (p_allparens ps) (p_prev ps) (p_last ps).
-Definition with_prec (ps : pst) (x : Z) := mkPst (p_out ps) (p_indent ps) x (p_idone ps) (p_compact ps) (p_allparens ps) (p_prev ps) (p_last ps).
-Definition with_idone (ps : pst) (b : bool) := mkPst (p_out ps) (p_indent ps) (p_prec ps) b (p_compact ps) (p_allparens ps) (p_prev ps) (p_last ps).
-Definition with_prev (ps : pst) (n : option node) := mkPst (p_out ps) (p_indent ps) (p_prec ps) (p_idone ps) (p_compact ps) (p_allparens ps) n (p_last ps).
-Definition with_last (ps : pst) (l : bytes) := mkPst (p_out ps) (p_indent ps) (p_prec ps) (p_idone ps) (p_compact ps) (p_allparens ps) (p_prev ps) l.
+Definition with_out (ps : pst) (o : bytes) := mkPst o (p_indent ps) (p_prec ps) (p_idone ps) (p_compact ps) (p_allparens ps) (p_prev ps) (p_last ps) (p_sep ps).
+Definition with_indent (ps : pst) (i : Z) := mkPst (p_out ps) i (p_prec ps) (p_idone ps) (p_compact ps) (p_allparens ps) (p_prev ps) (p_last ps) (p_sep ps).
+Definition with_prec (ps : pst) (x : Z) := mkPst (p_out ps) (p_indent ps) x (p_idone ps) (p_compact ps) (p_allparens ps) (p_prev ps) (p_last ps) (p_sep ps).
+Definition with_idone (ps : pst) (b : bool) := mkPst (p_out ps) (p_indent ps) (p_prec ps) b (p_compact ps) (p_allparens ps) (p_prev ps) (p_last ps) (p_sep ps).
+Definition with_prev (ps : pst) (n : option node) := mkPst (p_out ps) (p_indent ps) (p_prec ps) (p_idone ps) (p_compact ps) (p_allparens ps) n (p_last ps) (p_sep ps).
+Definition with_last (ps : pst) (l : bytes) := mkPst (p_out ps) (p_indent ps) (p_prec ps) (p_idone ps) (p_compact ps) (p_allparens ps) (p_prev ps) l (p_sep ps).
+Definition with_sep (ps : pst) (b : bool) := mkPst (p_out ps) (p_indent ps) (p_prec ps) (p_idone ps) (p_compact ps) (p_allparens ps) (p_prev ps) (p_last ps) b.
 
 Definition raw_write (ps : pst) (s : bytes) : pst := with_out ps (p_out ps ++ s).
 
@@ -47,7 +49,15 @@ Definition Print (ps : pst) (s : bytes) : pst :=
     if negb (p_compact ps) && negb (p_idone ps) && (1 <? p_indent ps)
     then with_idone (raw_write ps (tabs (p_indent ps - 1))) true
     else ps in
-  with_last (raw_write ps1 s) s.
+  let ps2 :=
+    if p_sep ps1 then
+      match s with
+      | [] => ps1
+      | c :: _ => let ps' := with_sep ps1 false in
+                  if (c =? 40)%N || (c =? 91)%N then raw_write ps' [32%N] else ps'
+      end
+    else ps1 in
+  with_last (raw_write ps2 s) s.
 
 (* ps.Println() with no argument *)
 Definition Println0 (ps : pst) : pst :=
@@ -92,9 +102,10 @@ Definition bytes_eqb (a b : bytes) : bool := tok_eqb (mkTok 0 a) (mkTok 0 b).
 
 (* prettyPrintCompact: the separator decision (comments are skipped by the caller) *)
 Definition compact_sep (ps : pst) (s : option node) (i : nat) : pst :=
-  if (is_array s || (negb (bytes_eqb (p_last ps) B"}") && negb (bytes_eqb (p_last ps) B"]")))
-     && negb (Nat.eqb i 0)
-  then raw_write ps [32%N] else ps.
+  if Nat.eqb i 0 then ps
+  else if is_array s || (negb (bytes_eqb (p_last ps) B"}") && negb (bytes_eqb (p_last ps) B"]"))
+       then raw_write ps [32%N]
+       else with_sep ps true.
 
 (* prettyPrintLongForm *)
 Definition long_sep (ps : pst) (s : option node) (i : nat) : pst :=
@@ -122,6 +133,9 @@ Definition close_paren (b : bool) (ps : pst) : pst := if b then Print ps B")" el
 
 (* ---- helpers of PrettyPrint, open over the recursive call [rec] (so that lemmas about them are
         generic); [pp] below ties the knot.  None = a nil child was dereferenced (Go panic) ---- *)
+(* Precedences[token.COLON] (a missing map entry reads as the zero value) *)
+Definition colon_prec : Z := match table_get precedences token_COLON with Some p => p | None => 0 end.
+
 Section WithRec.
 Variable rec : node -> pst -> option pst.
 
@@ -183,7 +197,7 @@ Definition pp_block_with (x : option node) (ps : pst) : option pst :=
   | None => None
   end.
 
-(* the pairs of a map literal *)
+(* the pairs of a map literal: keys and values are printed as operands of `:` *)
 Fixpoint map_loop_with (sep : bytes) (l : list (option node * option node)) (first : bool) (ps : pst)
   {struct l} : option pst :=
   match l with
@@ -193,13 +207,13 @@ Fixpoint map_loop_with (sep : bytes) (l : list (option node * option node)) (fir
     match k with
     | None => None
     | Some km =>
-      match rec km ps1 with
+      match rec km (with_prec ps1 colon_prec) with
       | None => None
       | Some ps2 =>
         match v with
         | None => None
         | Some vm =>
-          match rec vm (Print ps2 B":") with
+          match rec vm (with_prec (Print ps2 B":") (colon_prec + 1)) with
           | None => None
           | Some ps3 => map_loop_with sep r false ps3
           end
@@ -365,7 +379,7 @@ Fixpoint pp (n : node) (ps : pst) {struct n} : option pst :=
   | NMap t pairs =>
     match map_loop_with pp (sep_comma ps) pairs true (Print ps B"{") with
     | None => None
-    | Some ps1 => Some (Print ps1 B"}")
+    | Some ps1 => Some (Print (with_prec ps1 (p_prec ps)) B"}")
     end
   | NMacro t params body =>
     match coma_list params (Print (Print ps (tlit t)) B"(") with
